@@ -7,8 +7,7 @@
    numbers of a digit count, all CP437 / hex strings, ...) are shown to be inside the class for all
    their values; every shipped layout is shown to be inside the class with all optionals present and
    with all optionals absent (regenerated tables, re-checked each run).
-   What is still partial: UTF-8 and date-time leaves enter the class value by value (their decoders are
-   run by `canon`), not by a closed-form family lemma. *)
+   UTF-8 text and date-times are families too (Utf8Props.v, DateTimeProps.v). *)
 From Zvt Require Import Base Length LengthProps Cp437 Encoding EncodingProps Codec CodecFrame CodecRoundtrip
   CodecTags CodecFields CodecCanon CanonClass CanonRoundtrip CanonRun CanonShipped Lookup.
 Open Scope N_scope.
@@ -59,6 +58,16 @@ Theorem C01_class_all_hex_text : forall ls tag n s ctx,
   exists g, canon ls EHex (TPrim PString) tag (VStr s) ctx = Some g.
 Proof. exact class_hex. Qed.
 
+Theorem C01_class_all_utf8_text : forall ls tag s ctx,
+  delimiting ls = true -> tag_ok_b tag = true -> forallb scalar_ok s = true ->
+  (forall bs, utf8_enc s = Ok bs -> len_fits ls (blen bs) = true) ->
+  exists g, canon ls EUtf8 (TPrim PString) tag (VStr s) ctx = Some g.
+Proof. exact class_utf8. Qed.
+Theorem C01_class_all_date_times : forall tag (y : Z) mo d h mi s ctx, tag_ok_b tag = true ->
+  (0 <= y <= 9999)%Z -> ymd_ok y mo d = true -> hms_ok h mi s = true ->
+  exists g, canon LTlv EDefault (TPrim PDateTime) tag (VDate y mo d h mi s) ctx = Some g.
+Proof. exact class_datetime. Qed.
+
 (* every shipped packet / container, all optionals present and all optionals absent, is in the class *)
 Theorem C01_shipped_layouts_in_class : outside true = [] /\ outside false = [].
 Proof. exact shipped_in_class. Qed.
@@ -96,5 +105,7 @@ Print Assumptions C01_class_all_integers_without_length.
 Print Assumptions C01_class_all_bcd_numbers.
 Print Assumptions C01_class_all_cp437_text.
 Print Assumptions C01_class_all_hex_text.
+Print Assumptions C01_class_all_utf8_text.
+Print Assumptions C01_class_all_date_times.
 Print Assumptions C01_shipped_layouts_in_class.
 Print Assumptions C01_frame_roundtrip.
